@@ -1,6 +1,9 @@
 package query
 
 import (
+	"errors"
+	"time"
+
 	v "github.com/els0r/goProbe/v4/zz_verif"
 )
 
@@ -104,4 +107,55 @@ var verifNowSeen int64
 func verifNow() int64 {
 	verifNowSeen = v.NowSec()
 	return verifNowSeen
+}
+
+// verifC28Real selects the real body of ParseTimeArgument (the range harness keeps the symbolic-instant stub)
+var verifC28Real bool
+
+// contract stub for time.ParseInLocation in time.go: the okAt-th call matches and denotes the instant sec
+var verifC28 struct {
+	calls, okAt int
+	sec         int64
+	locOK       bool
+}
+
+func verifParseInLocation(layout, value string, loc *time.Location) (time.Time, error) {
+	i := verifC28.calls
+	verifC28.calls++
+	if loc != time.Local {
+		verifC28.locOK = false
+	}
+	if i == verifC28.okAt {
+		return time.Unix(verifC28.sec, 0), nil
+	}
+	return time.Time{}, errors.New("parsing time: no match")
+}
+
+// VerifC28_Absolute: the real ParseTimeArgument on text that is neither relative nor a number: the layouts
+// are tried in order in the process's local time zone (so that an offset-less text gets the offset in force
+// at the instant it denotes), the first match decides, and its instant is returned unchanged; a number is
+// returned as the unix time it is without consulting any layout.
+func VerifC28_Absolute() {
+	verifC28Real = true
+	n := len(timeFormatsDefault) + len(timeFormatsCustom)
+	v.Assert(n > 0, "layouts are configured")
+	sec := v.I64()
+	v.Assume(sec >= 0 && sec < 1<<40)
+	verifC28.calls, verifC28.okAt, verifC28.sec, verifC28.locOK = 0, v.Concretize(v.IntIn(0, n)), sec, true
+	got, err := ParseTimeArgument("!absolute")
+	v.Reach("absolute")
+	v.Assert(verifC28.locOK, "offset-less layouts are interpreted in the process's local time zone (time.Local), not in a zone fixed beforehand")
+	if verifC28.okAt < n {
+		v.Assert(err == nil && got == sec, "the instant denoted under the first matching layout is returned")
+		v.Assert(verifC28.calls == verifC28.okAt+1, "layouts are tried in order and the first match decides")
+	} else {
+		v.Assert(err != nil, "text that no layout matches is rejected")
+		v.Assert(verifC28.calls == n, "every layout is tried before giving up")
+	}
+	u := v.I64()
+	v.SetNum("U", u)
+	verifC28.calls = 0
+	got, err = ParseTimeArgument("U")
+	v.Assert(err == nil && got == u && verifC28.calls == 0, "a number is the unix time it is")
+	verifC28Real = false
 }
